@@ -58,8 +58,9 @@ impl PartialEq for Object {
         }
         // because we allow duplicated keys in object, so we need to compare by `get`, and in
         // both directions: with duplicates equal lengths do not imply equal key sets
+        // (the values are compared once: every key of `other` only has to exist in `self`)
         self.iter().all(|(k, _)| other.get(&k) == self.get(&k))
-            && other.iter().all(|(k, _)| self.get(&k) == other.get(&k))
+            && other.iter().all(|(k, _)| self.contains_key(&k))
     }
 }
 
